@@ -197,15 +197,17 @@ class Exporter:
             # Traversed in reverse order to only include the active spines at the given measure...
             from_stage = document.measure_start_tree_stages[options.from_measure - 1]
             next_nodes = document.tree.stages[from_stage]
+            is_from_stage_row = True  # the row of from_stage itself is exported with the body, not recovered here
             while next_nodes and len(next_nodes) > 0 and next_nodes[0] != document.tree.root:
                 row = []
                 new_next_nodes = []
                 non_place_holder_in_row = False
                 spine_operation_row = False
                 for node in next_nodes:
-                    if isinstance(node.token, SpineOperationToken):
+                    if isinstance(node.token, SpineOperationToken) and not is_from_stage_row:
                         spine_operation_row = True
                         break
+                is_from_stage_row = False
 
                 for node in next_nodes:
                     content = ''
